@@ -21,20 +21,76 @@
 (*                   RS(p,q) for every q in `to` (message and submessage   *)
 (*                   level with origin authentication only)                *)
 (*   tamper class t  which field of the encoded form was altered           *)
+(*                                                                         *)
+(* Key inventory (strengthening round).  Every plugin owns SEVERAL key     *)
+(* materials, each with its own key id:                                    *)
+(*   <<p,"part",0>>  participant key (message level)                       *)
+(*   <<p,"sub",0>>   endpoint key for submessages                          *)
+(*   <<p,"pay",0>>   endpoint key for payloads - a key material of its own *)
+(*                   only for a WRITER whose submessage and payload        *)
+(*                   protection kinds differ (cfg.other # "same":          *)
+(*                   KeyMaterial_AES_GCM_GMAC_seq::Two, two tokens);       *)
+(*                   otherwise the "sub" material serves both (::One)      *)
+(*   <<p,"rs",q>>    receiver-specific key p generated for q               *)
+(* The key id in a CryptoHeader is NOT covered by any MAC: the lookup of   *)
+(* the decode key is the only place where an altered key id is noticed.    *)
+(* A key id can be altered to garbage ("keyid": bit flips) or to a value   *)
+(* that IS the id of another key in the system (classes KidT below).       *)
 (***************************************************************************)
 EXTENDS Integers, Sequences, FiniteSets
 
 P == {1, 2, 3}
 
+\* key id overwritten with the id of ANOTHER existing key (or the reserved id 0):
+\*   keyid_sib   the sender's key of the sibling endpoint level (submessage <-> payload)
+\*   keyid_ent   the sender's key of the other entity level (endpoint <-> participant)
+\*   keyid_rs    the receiver-specific key the sender generated for the receiver at hand
+\*   keyid_peer  the same-level key of a different sender (the claimed one, if it is not the producer)
+\*   keyid_own   the receiver's own key of that level
+\*   keyid_zero  the reserved id 0
+KidT == {"keyid_sib", "keyid_ent", "keyid_rs", "keyid_peer", "keyid_own", "keyid_zero"}
+
 \* tamper classes.  Every class of MustReject alters protected bytes, key id, session id,
 \* initialisation vector, common MAC, or the receiver-specific MAC of the receiver at hand.
+\*   rkid_swap   the key ids of the receiver's MAC entry and of another receiver's entry exchanged
+\*               (the entry labelled for the receiver at hand then carries somebody else's MAC)
 MustReject == {"kind", "keyid", "session", "iv", "body", "cmac", "rcount",
-               "rmac_mine", "rkid_mine", "drop_mine", "hdr", "swap_hdr"}
+               "rmac_mine", "rkid_mine", "drop_mine", "rkid_swap", "hdr", "swap_hdr"} \cup KidT
 AllT == {"none"} \cup MustReject
 
 IsMsg(cfg) == cfg.lvl = "msg"
 \* receiver-specific MACs exist only above payload level and only with origin authentication
 HasRS(cfg) == cfg.oa /\ cfg.lvl # "payload"
+
+\* ---- key inventory ----
+\* senders are writers in direction w2r, readers (ACKNACK) in direction r2w
+IsWriter(cfg, snd, p) == (p \in snd) = (cfg.dir = "w2r")
+\* register_local_datawriter: kinds differ => Two key materials; readers and participants: One.
+\* (at message level the endpoints get the same kind at both endpoint levels)
+TwoKeys(cfg, snd, p) == cfg.lvl # "msg" /\ cfg.other # "same" /\ IsWriter(cfg, snd, p)
+Slot(cfg) == CASE cfg.lvl = "msg" -> "part" [] cfg.lvl = "submsg" -> "sub" [] OTHER -> "pay"
+SibSlot(cfg) == IF cfg.lvl = "submsg" THEN "pay" ELSE "sub"
+EntSlot(cfg) == IF cfg.lvl = "msg" THEN "sub" ELSE "part"
+\* the id of the key material p uses at `slot`
+Kid(cfg, snd, p, slot) == IF slot = "part" THEN <<p, "part", 0>>
+                          ELSE IF TwoKeys(cfg, snd, p) THEN <<p, slot, 0>>
+                          ELSE <<p, "sub", 0>>
+RsKid(p, q) == <<p, "rs", q>>
+NoKid == <<0, "none", 0>>          \* a value that is no key's id
+\* a sender different from the producer of c: the claimed sender if it is one, else any other sender (0: none)
+PeerOf(snd, c, s) == IF s # c.p THEN s
+                     ELSE IF snd \ {c.p} = {} THEN 0 ELSE CHOOSE x \in snd \ {c.p} : TRUE
+
+\* the key id r finds in the header of c after alteration t
+HeaderKid(cfg, snd, c, r, s, held, t) ==
+  CASE t = "keyid"      -> NoKid
+    [] t = "keyid_zero" -> NoKid
+    [] t = "keyid_sib"  -> Kid(cfg, snd, c.p, SibSlot(cfg))
+    [] t = "keyid_ent"  -> Kid(cfg, snd, c.p, EntSlot(cfg))
+    [] t = "keyid_rs"   -> RsKid(c.p, held)
+    [] t = "keyid_peer" -> Kid(cfg, snd, PeerOf(snd, c, s), Slot(cfg))
+    [] t = "keyid_own"  -> Kid(cfg, snd, r, Slot(cfg))
+    [] OTHER            -> Kid(cfg, snd, c.p, Slot(cfg))
 
 \* Frame: DATA pads the payload to a multiple of 4 with zeros; on receipt padding and payload are
 \* indistinguishable.  decode_serialized_payload cuts the footer off the END of what it is given.
@@ -42,12 +98,18 @@ HasRS(cfg) == cfg.oa /\ cfg.lvl # "payload"
 \* does not decode after having travelled in a DATA submessage.
 DevS10(cfg, c) == cfg.lvl = "payload" /\ c.frame = "data" /\ ~c.al
 
-\* which tamper classes make sense for ciphertext c when r (holding token-for `held`) decodes
-Tampers(cfg, c, held) ==
-  {"none", "kind", "keyid", "session", "iv", "body", "cmac", "swap_hdr"}
+\* which tamper classes make sense for ciphertext c when r (holding token-for `held`) decodes it
+\* under the handle it has for s; loc = plugins that registered their local entities (their keys exist).
+\* A substitution class applies only if the substituted id exists and differs from the original one.
+Tampers(cfg, snd, loc, c, r, s, held) ==
+  {"none", "kind", "keyid", "session", "iv", "body", "cmac", "swap_hdr", "keyid_zero", "keyid_ent"}
     \cup (IF cfg.lvl = "payload" THEN {"rcount"} ELSE {})
     \cup (IF cfg.lvl = "msg" THEN {"hdr"} ELSE {})
-    \cup (IF HasRS(cfg) /\ held \in c.to THEN {"rmac_mine", "rkid_mine", "drop_mine"} ELSE {})
+    \cup (IF HasRS(cfg) /\ held \in c.to THEN {"rmac_mine", "rkid_mine", "drop_mine", "keyid_rs"} ELSE {})
+    \cup (IF HasRS(cfg) /\ held \in c.to /\ Cardinality(c.to) > 1 THEN {"rkid_swap"} ELSE {})
+    \cup (IF TwoKeys(cfg, snd, c.p) THEN {"keyid_sib"} ELSE {})
+    \cup (IF PeerOf(snd, c, s) \in loc THEN {"keyid_peer"} ELSE {})
+    \cup (IF r \in loc THEN {"keyid_own"} ELSE {})
 
 (***************************************************************************)
 (* The property, as a predicate: r, believing the bytes to come from s and *)
@@ -66,24 +128,36 @@ Authorized(cfg, c, s, held, t) ==
 (***************************************************************************)
 (* Decision procedure transcribed from crypto_transform.rs (fn decode_..),  *)
 (* cryptographic_builtin.rs (get_decode_key_material: lookup by handle,    *)
+(* key material SELECTED BY SCOPE (submessage-or-message / payload), then  *)
 (* filtered by header key id) and validate_receiver_specific_macs.rs.      *)
 (* `epinfo`: r registered s's endpoint (decode_submessage walks            *)
 (* participant_to_endpoint_info).  Result "plain" / "nodata".              *)
+(* `loose` = TRUE is a deliberately wrong lookup (the header key id may be *)
+(* ANY id of the sender's key materials under that handle) used only by    *)
+(* MC_CryptoKeys_neg.cfg to show that the invariants notice this class.    *)
 (***************************************************************************)
+\* ids of all key materials r stores under the handle it has for s (the token sequence of s)
+StoredKids(cfg, snd, s) == IF IsMsg(cfg) THEN {Kid(cfg, snd, s, "part")}
+                           ELSE {Kid(cfg, snd, s, "sub"), Kid(cfg, snd, s, "pay")}
+KidOk(loose, cfg, snd, c, r, s, held, t) ==
+  LET hk == HeaderKid(cfg, snd, c, r, s, held, t) IN
+  IF loose THEN hk \in StoredKids(cfg, snd, s)
+  ELSE hk = Kid(cfg, snd, s, Slot(cfg))                 \* select(scope).sender_key_id = header key id
+\* the MAC was made with the key of c.p selected by the level; it verifies only under that very key
 CommonMacOk(c, s, t) == c.p = s /\ t \notin {"session", "iv", "body", "cmac", "swap_hdr"}
 \* receiver-specific MAC is computed over the common MAC with the session key derived from the IV header
 RsMacOk(cfg, c, s, held, t) ==
   IF ~HasRS(cfg) THEN TRUE                       \* key material has no receiver-specific key: nothing expected
   ELSE /\ c.p = s /\ held \in c.to               \* find_receiver_specific_mac by key id
        /\ t \notin {"rkid_mine", "drop_mine"}      \* ... entry still there under that id
-       /\ t \notin {"rmac_mine", "session", "iv", "cmac", "swap_hdr"}  \* validate_mac(key, iv, common_mac, mac)
+       /\ t \notin {"rmac_mine", "rkid_swap", "session", "iv", "cmac", "swap_hdr"}  \* validate_mac(key, iv, common_mac, mac)
 
-ImplDecode(cfg, c, s, held, epinfo, t) ==
+ImplDecode(loose, cfg, snd, c, r, s, held, epinfo, t) ==
   IF DevS10(cfg, c) THEN "nodata"                                      \* footer taken from the padded end
   ELSE IF t \in {"kind", "rcount", "hdr"} THEN "nodata"                 \* header / footer / InfoSource checks
   ELSE IF cfg.lvl = "submsg" /\ ~epinfo THEN "nodata"                  \* no registered entities for the sender
   ELSE IF held = 0 THEN "nodata"                                       \* no decode key material for the handle
-  ELSE IF ~(c.p = s /\ t # "keyid") THEN "nodata"                      \* sender_key_id filter / KeysNotFound
+  ELSE IF ~KidOk(loose, cfg, snd, c, r, s, held, t) THEN "nodata"      \* sender_key_id filter / KeysNotFound
   ELSE IF ~RsMacOk(cfg, c, s, held, t) THEN "nodata"                   \* ValidatingReceiverSpecificMACFailed
   ELSE IF ~CommonMacOk(c, s, t) THEN "nodata"                          \* validate_mac / decrypt
   ELSE "plain"
